@@ -440,7 +440,10 @@ def _propagate_dynsys(
             raise ValueError("Symplectic method requires a _HamiltonianSystem")
         integrator = _ExtendedSymplectic(order=order)
         sol = integrator.integrate(dynsys_dir, state0_np, t_eval, event_fn=event_fn, event_cfg=event_cfg, event_options=event_options)
-        times = sol.times
+        # The symplectic integrator already returns times signed by the
+        # direction of the wrapped system; undo that so the sign is applied
+        # exactly once below, as for the other methods.
+        times = forward * sol.times
         states = sol.states
 
     elif method == "adaptive":
